@@ -128,6 +128,7 @@ func (r *c14run) filterPQL(fk string, fa int) string {
 func (r *c14run) fullRead(st behav.Step, i int, mk func(kind, path, sym, text string) *mismatch) *mismatch {
 	want := pairsOf(st["vals"])
 	r.cur = want
+	r.s.AwaitShards(r.p.ColSet(sortedCols(want)))
 	agg := behav.ToMap(st["agg"])
 	var distinct []int
 	byVal := map[int][]int{}
